@@ -866,6 +866,10 @@ func immutableProps(pkg string) []string {
 		return []string{"C01", "C02", "C03", "C04", "C18"}
 	case "ast":
 		return []string{"C10", "C13"}
+	case "sql":
+		return []string{"C20"}
+	case "vm":
+		return []string{"C03", "C04"}
 	}
 	return []string{"C01"}
 }
@@ -935,6 +939,55 @@ func (P *Program) ScanImmutable() []ScanSite {
 	}
 	bad := map[string]ScanSite{}
 	okCount := map[string]int{}
+	// global maps whose contents are frozen after package initialisation
+	type gdecl struct{ pkg, name string }
+	globalMaps := map[string]gdecl{}
+	for _, im := range P.Immutable {
+		parts := strings.Split(im, ".")
+		if len(parts) != 2 {
+			continue
+		}
+		for path, sp := range P.ByPath {
+			if shortPkg(path) == parts[0] {
+				if obj := sp.Pkg.Scope().Lookup(parts[1]); obj != nil {
+					if _, ok := obj.Type().Underlying().(*types.Map); ok {
+						globalMaps[typeKey(obj.Type())] = gdecl{parts[0], parts[1]}
+					}
+				}
+			}
+		}
+	}
+	it := P.initTime()
+	gmOK := map[string]int{}
+	for _, fn := range P.AllFuncs {
+		for _, b := range fn.Blocks {
+			for _, in := range b.Instrs {
+				var mt types.Type
+				switch x := in.(type) {
+				case *ssa.MapUpdate:
+					mt = x.Map.Type()
+				case *ssa.Call:
+					if bi, ok := x.Call.Value.(*ssa.Builtin); ok && bi.Name() == "delete" {
+						mt = x.Call.Args[0].Type()
+					}
+				}
+				if mt == nil {
+					continue
+				}
+				d, ok := globalMaps[typeKey(mt)]
+				if !ok {
+					continue
+				}
+				key := fmt.Sprintf("immutable/%s.%s[*]", d.pkg, d.name)
+				if it[fn] {
+					gmOK[key]++
+					continue
+				}
+				name := key + "@" + fnLabel(fn)
+				bad[name] = ScanSite{Name: name, Props: immutableProps(d.pkg), Why: "a map of the type of this frozen global map is updated outside package initialisation"}
+			}
+		}
+	}
 	for _, fn := range P.AllFuncs {
 		for _, b := range fn.Blocks {
 			for _, in := range b.Instrs {
@@ -1010,6 +1063,10 @@ func (P *Program) ScanImmutable() []ScanSite {
 		key := fmt.Sprintf("immutable/%s.%s.%s", d.pkg, d.st, d.fld)
 		sites = append(sites, ScanSite{Name: key, Props: immutableProps(d.pkg), OK: true,
 			Why: fmt.Sprintf("%d store(s), all through pointers allocated in the storing function", okCount[key]+okCount[key+"[*]"])})
+	}
+	for _, d := range globalMaps {
+		key := fmt.Sprintf("immutable/%s.%s[*]", d.pkg, d.name)
+		sites = append(sites, ScanSite{Name: key, Props: immutableProps(d.pkg), OK: true, Why: fmt.Sprintf("%d update(s), all during package initialisation", gmOK[key])})
 	}
 	for _, s := range bad {
 		sites = append(sites, s)
